@@ -17,3 +17,6 @@ impl<T> ResourceStorage<T> {
 		key
 	}
 }
+impl<T> SelfReferentialResourceStorage<T> {
+	pub(crate) fn kv_push_key(&mut self, key: Key) { self.keys.push(key); }
+}
